@@ -4,6 +4,7 @@
 //!  * `depth`   nesting-depth sweeps in child processes (a stack overflow is an abort, not a panic)
 //!  * `sem`     abstract queries printed with meaning-preserving noise, parsed by `QueryParser`,
 //!              executed on a small corpus and compared with a naive evaluation on model documents
+//!              (incl. fields whose analyzer removes tokens: a removed token keeps its position)
 //!  * `total`   totality + strict/lenient agreement on hostile strings (grammar crate and
 //!              QueryParser); the parsers run in worker processes (`--child-total`) because the
 //!              lenient parser can loop forever while allocating
@@ -41,6 +42,7 @@ fn env() -> &'static Env {
     ENV.get_or_init(|| {
         let fields = build_schema(true);
         let index = Index::create_in_ram(fields.schema.clone());
+        register_tokenizers(&index);
         let all_indexed: Vec<Field> = fields
             .schema
             .fields()
@@ -748,6 +750,7 @@ struct Corpus {
 fn build_corpus(world: &World, rng: &mut Rng, fast: bool) -> Result<Corpus, String> {
     let fields = build_schema(fast);
     let index = Index::create_in_ram(fields.schema.clone());
+    register_tokenizers(&index);
     let mut writer: IndexWriter<TantivyDocument> = index
         .writer_with_num_threads(1, 15_000_000)
         .map_err(|e| format!("writer: {e}"))?;
@@ -963,6 +966,11 @@ fn sem_case(case: u64, rng: &mut Rng, rep: &mut Report, queries_per_corpus: usiz
         let feats = features(&node);
         for ft in &feats {
             rep.observe("sem:features", ft.clone());
+            // multi-token literals on a field whose analyzer removes one of their tokens
+            if let Some(i) = ft.find(":analyzer-removes-") {
+                rep.observe("sem:literals_with_removed_token", ft.clone());
+                rep.count(&format!("sem:literals_with{}", &ft[i..].replace(':', "_")), 1);
+            }
         }
         let mut parsed_everywhere = true;
         // strict/lenient agreement (and hangs) are judged in a worker process, exactly as in the
@@ -1021,6 +1029,12 @@ fn sem_case(case: u64, rng: &mut Rng, rep: &mut Report, queries_per_corpus: usiz
                         // clause that is left, which lifts its `+`/`-` out of the parentheses:
                         // `(+a +a) b` is read as `+a b`; the literals involved do not matter
                         "sem:mismatch:repeated-operand-in-parentheses".to_string()
+                    } else if kind == "mismatch" && prefix_gap_defect(&min_node, &min_detail) {
+                        // the parser did its part (the parsed query carries the positions of the
+                        // kept tokens), the phrase-prefix scorer then aligns the prefix one
+                        // position after the last phrase term instead of at its own position
+                        "sem:mismatch:phrase-prefix:two-or-more-terms+removed-token-directly-before-the-prefix:parsed-positions-as-expected"
+                            .to_string()
                     } else if kind.starts_with("panic") {
                         // the panic site is the signature; the shrunk query is the witness
                         format!("sem:{kind}")
@@ -1054,6 +1068,21 @@ fn sem_case(case: u64, rng: &mut Rng, rep: &mut Report, queries_per_corpus: usiz
                 "docs": corpus.docs.len()}));
         }
     }
+}
+
+/// Is this shrunk mismatch the known phrase-prefix defect? The query is a single prefix phrase of
+/// the shape `prefix_after_removed_token`, and the parsed query (its Debug rendering, once per
+/// targeted field) lists exactly the positions the kept tokens have in the literal.
+fn prefix_gap_defect(min_node: &Node, min_detail: &Value) -> bool {
+    static RE: OnceLock<regex::Regex> = OnceLock::new();
+    let Some(expected) = prefix_after_removed_token(min_node) else { return false };
+    let Some(parsed) = min_detail.get("parsed").and_then(|v| v.as_str()) else { return false };
+    if !parsed.contains("PhrasePrefixQuery") {
+        return false;
+    }
+    let re = RE.get_or_init(|| regex::Regex::new(r"\((\d+), Term\(").expect("static regex"));
+    let got: Vec<usize> = re.captures_iter(parsed).filter_map(|c| c[1].parse().ok()).collect();
+    !got.is_empty() && got.len() % expected.len() == 0 && got.chunks(expected.len()).all(|c| c == expected.as_slice())
 }
 
 /// greedy shrink of a failing abstract query; returns (node, text, detail, reproduced_with_plain_print)
@@ -1512,6 +1541,7 @@ fn child_main(args: &[String]) -> ! {
         _ => {
             let fields = build_schema(false);
             let index = Index::create_in_ram(fields.schema.clone());
+            register_tokenizers(&index);
             let qp = QueryParser::for_index(&index, vec![fields.title, fields.body]);
             if api == "QueryParser-parse_query" {
                 let r = qp.parse_query(&input);
@@ -1765,14 +1795,15 @@ fn main() {
     simple_finish(
         &ctx,
         rep,
-        "total: case = one generated string (classes: random UTF-8, lossy byte soup, metacharacter soup, valid queries, their mutations, every prefix of one, unbalanced quotes/brackets, splices, keyword/whitespace variants, long inputs up to 1 MB, nesting <= 200) fed - inside memory-capped worker processes, so that hangs, unbounded allocation and stack overflows are survivable and attributable - to grammar parse_query/parse_query_lenient and to 4 QueryParser configurations (strict + lenient); non-trivial = the string contains grammar metacharacters/keywords; distinct = input class x character-class skeleton (first 28). sem: case = one corpus (1-40 docs, 1-2 segments, every field type, typed fields INDEXED or INDEXED|FAST, plus one title-only document per subset of three focus words) with 10/25 abstract queries, each printed with random whitespace/escaping/quoting/case/redundant parentheses/boosts, parsed in disjunction and conjunction mode and compared (Count and DocSetCollector via the id fast field) with a naive evaluation on the model documents, failing queries are shrunk; non-trivial = accepted by both parsers with the expected match set; distinct = set of grammar features in the query. depth: child-process sweeps of 6 nesting shapes x 4 entry points on an 8 MB main-thread stack.",
+        "total: case = one generated string (classes: random UTF-8, lossy byte soup, metacharacter soup, valid queries, their mutations, every prefix of one, unbalanced quotes/brackets, splices, keyword/whitespace variants, long inputs up to 1 MB, nesting <= 200) fed - inside memory-capped worker processes, so that hangs, unbounded allocation and stack overflows are survivable and attributable - to grammar parse_query/parse_query_lenient and to 4 QueryParser configurations (strict + lenient); non-trivial = the string contains grammar metacharacters/keywords; distinct = input class x character-class skeleton (first 28). sem: case = one corpus (1-40 docs, 1-2 segments, every field type, typed fields INDEXED or INDEXED|FAST, three fields whose analyzer removes tokens - sw and the JSON field jt: stop words, lg: tokens of 6 bytes or more - next to the default tokenizer's 40-byte limit on title/body/js, documents embedding pooled sentences with removed tokens between kept ones and phrase / phrase~slop / phrase* / multi-token literals cut from them, plus one title-only document per subset of three focus words) with 10/25 abstract queries, each printed with random whitespace/escaping/quoting/case/redundant parentheses/boosts, parsed in disjunction and conjunction mode and compared (Count and DocSetCollector via the id fast field) with a naive evaluation on the model documents, failing queries are shrunk; non-trivial = accepted by both parsers with the expected match set; distinct = set of grammar features in the query. depth: child-process sweeps of 6 nesting shapes x 4 entry points on an 8 MB main-thread stack.",
         ctx.scale(500, 5_000),
         &[
             "documented grammar = doc comment of tantivy::query::QueryParser; only forms it defines are generated in the semantic stream (NOT only as a synonym of '-' inside an occur list, as the grammar crate's own tests define it; AND/OR chains whose operands carry '-' or '+' follow the grammar crate's tests: inside a conjunction '-' excludes and '+' changes nothing, a conjunction made only of excluded operands - e.g. the '-y' of 'x OR -y' - matches nothing, '+' is never written on a lone OR alternative; field groups 'field:( expr )' give their field to every unfielded term below them, through boosts and parentheses, and are generated on non-default fields only; field:* (exists) only at syntax-tree level and field:(group) only in the totality stream because QueryParser does not document them; a query made only of excluded clauses must be rejected with AllButQueryForbidden)",
             "meaning-preserving noise = blanks/tabs/newlines between operands and after ':' (only blanks before ':'), a literal blank after AND/OR/NOT, bare words with backslash escapes or single/double quotes with redundant escapes, ASCII case changes on tokenized text, redundant parentheses, boosts",
             "strict and lenient QueryParser results are compared after undoing LogicalAst::simplify (same-occur child clauses spliced into the parent), which only the strict path applies",
             "QueryParser-level agreement is checked only on inputs where the two grammar-level parsers already agree, so one grammar disagreement is reported once; a grammar disagreement is named after its cause when rewriting that detail (blank after '[' of a set, blank before a closing range bracket, blank after NOT, blanks between adjacent operands) makes the parsers agree while the strict tree stays the same, otherwise after its first symptom",
-            "phrase slop is only generated for two-term phrases (|pos_a + 1 - pos_b| <= slop, PhraseQuery::set_slop doc); text tokens follow the default tokenizer (split on non-alphanumeric, lower-cased); JSON literals are integers, bools or alphabetic words",
+            "phrase slop is only generated for phrases with two kept terms (|pos_a + gap - pos_b| <= slop, gap = distance of the two terms in the literal, 1 when adjacent; PhraseQuery::set_slop doc); text tokens follow the tokenizer of the field (split on non-alphanumeric, lower-cased); JSON literals are integers, bools or alphabetic words",
+            "a literal is tokenised by the analyzer of its field; a token the analyzer removes (stop word, token of 40 / 6 bytes or more) leaves its position empty in the document and in the literal alike, so \"quick the fox\" on a stop-word field is quick, one position left out, fox (naive model: keeps(field, token), no tantivy code); only literals with at least one kept token are generated (what a literal without any token means is not documented), prefix phrases keep two tokens of which the prefix is the last, single terms / set elements / range bounds are kept tokens",
             "a worker without an answer is a verdict only if a fresh one-shot process running a single entry point reproduces it (30 s CPU limit, 384 MB address space); a child killed by a signal with 'stack overflow' on stderr is a stack overflow",
         ],
     );
